@@ -445,7 +445,7 @@ func check(s *sinks, w *worker, c Case) {
 func unitSet(pred func(*cg.Unit) bool) []int {
 	var out []int
 	for _, u := range units {
-		if pred(u) {
+		if pred(u) && !u.Skip {
 			out = append(out, u.Idx)
 		}
 	}
@@ -566,6 +566,7 @@ func main() {
 	args := mc.ParseArgs()
 	run := mc.NewRun("C02", args.Tier, "exploration")
 	units = cg.Catalogue(cg.Options{ModelStruct: modelStruct, ModelName: "T"})
+	pendingSkipped := cg.MarkPending(units, "C02", args.Tier)
 
 	s := &sinks{run: run, st: &stats{}, nontriv: &mc.Set{}, outcomes: &mc.Set{}, samples: &mc.Samples{N: 8}, classes: &mc.Set{}}
 
@@ -577,6 +578,21 @@ func main() {
 		return
 	}
 	if args.Replay != "" {
+		var sp struct {
+			Scopes *ScopeCase `json:"scopes"`
+		}
+		if err := mc.LoadReplay(args.Replay, &sp); err == nil && sp.Scopes != nil {
+			os.Setenv("VERIF_KNOWN_FINDINGS", "/nonexistent")
+			r2 := mc.NewRun("C02", args.Tier, "exploration")
+			w := newWorker()
+			got, err, p := w.runScopes(*sp.Scopes)
+			fmt.Printf("case: %s\nobserved per chain: %v err=%v panic=%q\n", sp.Scopes.String(), got, err, p)
+			if !checkScopes(r2, w, *sp.Scopes) {
+				os.Exit(1)
+			}
+			fmt.Println("no violation")
+			return
+		}
 		var c Case
 		if err := mc.LoadReplay(args.Replay, &c); err != nil {
 			fmt.Fprintln(os.Stderr, err)
@@ -653,6 +669,7 @@ func main() {
 	}
 	close(batches)
 	wg.Wait()
+	scopeCases := exploreScopes(run)
 
 	st := s.st
 	frac := 0.0
@@ -676,27 +693,29 @@ func main() {
 	run.Assume("Not of an AND-group whose members are ALL raw SQL strings (db.Where(\"x\").Where(\"y\"), clause.And(Expr,Expr)) is read as NOT (x AND y): gorm's own tests (tests/query_test.go TestNot, clause/where_test.go) pin that rendering; the every-member-false reading is asserted for maps, structs and groups with at least one clause-expression member")
 	run.Assume("Find(&T{ID:k}) scans one row only: observed = first row in id order, expected = smallest id of the reference set")
 	run.Finish(map[string]interface{}{
-		"evaluations":                       st.evaluations,
-		"distinct_nontrivial":               s.nontriv.Len(),
-		"rule":                              fmt.Sprintf("unit catalogue of %d units (12 atoms x renderings raw/placeholder/kv/map/struct/clause/named; two-operand AND/OR units with the fixed separator catalogue of 8 spellings, redundant parentheses, map, struct, clause.And/Or/Not/Expr, grouped sub-builders, named args; NOT atoms; depth-3 units; primary-key value forms; empty units). Enumerated: every chain of 1-2 Where/Or/Not calls (first != Or) over all units x Find/Count/Update/Delete (quick: the single-call-group family db.Or(x)/db.Not(x)/db.Where(x) around every raw spelling is paired only with the Rep>=1 units in 2-call chains); every chain of 3 calls over the class representatives (quick: Rep=1, thorough: Rep>=1) x 4 finishers; chains of 0-1 calls over all units x inline condition (every unit; quick with 1 call: the Rep>=1 units) x key{none,14} x Find/Delete (2 calls over representatives); chains of 0-2 calls x model key {1,14,slice} x Find/Update/Delete. Non-trivial = the reference id set differs from at least one other-precedence reading of the same program (strict left-to-right fold, or units spliced in without parentheses); distinct by (chain, inline, key, finisher)", nUnits),
-		"samples":                           s.samples.List(),
-		"exhaustive":                        complete,
-		"units":                             nUnits,
-		"generated":                         generated,
-		"skipped_outside_quantifier":        st.skippedUndefined,
-		"skipped_no_effective_condition":    st.skippedNoCond,
-		"precedence_sensitive_evaluations":  st.chainsSensitive,
-		"precedence_sensitive_fraction_pct": int(frac * 100),
-		"distinct_outcomes":                 s.outcomes.Len(),
-		"distinct_call_classes":             s.classes.Len(),
-		"find":                              st.byFin[fFind],
-		"count":                             st.byFin[fCount],
-		"update":                            st.byFin[fUpdate],
-		"delete":                            st.byFin[fDelete],
-		"with_inline_condition":             st.withInline,
-		"with_model_key":                    st.withPK,
-		"three_call_chains":                 st.threeCalls,
-		"cases_with_input_tag":              st.oddCases,
+		"evaluations":                        st.evaluations,
+		"distinct_nontrivial":                s.nontriv.Len(),
+		"rule":                               fmt.Sprintf("unit catalogue of %d units (12 atoms x renderings raw/placeholder/kv/map/struct/clause/named; two-operand AND/OR units with the fixed separator catalogue of 8 spellings, redundant parentheses, map, struct, clause.And/Or/Not/Expr, grouped sub-builders, named args; NOT atoms; depth-3 units; primary-key value forms; empty units). Enumerated: every chain of 1-2 Where/Or/Not calls (first != Or) over all units x Find/Count/Update/Delete (quick: the single-call-group family db.Or(x)/db.Not(x)/db.Where(x) around every raw spelling is paired only with the Rep>=1 units in 2-call chains); every chain of 3 calls over the class representatives (quick: Rep=1, thorough: Rep>=1) x 4 finishers; chains of 0-1 calls over all units x inline condition (every unit; quick with 1 call: the Rep>=1 units) x key{none,14} x Find/Delete (2 calls over representatives); chains of 0-2 calls x model key {1,14,slice} x Find/Update/Delete. Plus conditions added through Scopes on a reused Session handle carrying 0-9 scopes, 2-3 derived chains, both execution orders, Find/Count. Non-trivial = the reference id set differs from at least one other-precedence reading of the same program (strict left-to-right fold, or units spliced in without parentheses); distinct by (chain, inline, key, finisher)", nUnits),
+		"samples":                            s.samples.List(),
+		"exhaustive":                         complete,
+		"pending_units_skipped_until_listed": pendingSkipped,
+		"scopes_on_reused_handle_cases":      scopeCases,
+		"units":                              nUnits,
+		"generated":                          generated,
+		"skipped_outside_quantifier":         st.skippedUndefined,
+		"skipped_no_effective_condition":     st.skippedNoCond,
+		"precedence_sensitive_evaluations":   st.chainsSensitive,
+		"precedence_sensitive_fraction_pct":  int(frac * 100),
+		"distinct_outcomes":                  s.outcomes.Len(),
+		"distinct_call_classes":              s.classes.Len(),
+		"find":                               st.byFin[fFind],
+		"count":                              st.byFin[fCount],
+		"update":                             st.byFin[fUpdate],
+		"delete":                             st.byFin[fDelete],
+		"with_inline_condition":              st.withInline,
+		"with_model_key":                     st.withPK,
+		"three_call_chains":                  st.threeCalls,
+		"cases_with_input_tag":               st.oddCases,
 	})
 }
 
